@@ -35,6 +35,10 @@ func VerifC03_toolong() {
 	w.jump = 1 + verifrt.Fork("jump", len(w.log))
 	w.failNext = verifrt.NondetBool("failnext")
 	w.cut = len(w.log)
+	// the entries above the jump are recovered by an ordinary difference: the known finding (a
+	// non-message update behind a new message in one answer is parked and never delivered)
+	// applies to them as it does in VerifC03_persist
+	verifrt.Class("C03-diff-other-after-message", w.c02class(w.p0+w.jump))
 	err := w.s.getDifference(context.Background(), "verif")
 	last := w.p0
 	if len(w.writes) > 0 {
